@@ -102,13 +102,14 @@ func modelProgram(prog []refmodel.Stmt, strict bool) *mResult {
 			case "resource":
 				mw := ids.Take(s.K)
 				mains := ids.Take(3) // Index, Show, Store
+				uses := ids.Take(3)  // one per-action middleware each (from the controller instance's Uses())
 				gp := prefix + refmodel.Norm(fmt.Sprintf("/q%d%swidget", cn, s.Prefix), strict)
 				cn++
 				g := cat(group, mw...)
 				// (the paths Resource itself passes on: "/" and "{id}/")
-				addRoute("GET", gp, "/", cat(g, mains[0]))
-				addRoute("GET", gp, "{id}/", cat(g, mains[1]))
-				addRoute("POST", gp, "/", cat(g, mains[2]))
+				addRoute("GET", gp, "/", cat(cat(g, uses[0]), mains[0]))
+				addRoute("GET", gp, "{id}/", cat(cat(g, uses[1]), mains[1]))
+				addRoute("POST", gp, "/", cat(cat(g, uses[2]), mains[2]))
 			}
 		}
 	}
@@ -131,7 +132,11 @@ func (c *progCtl) AddRoutes(r *rux.Router) {
 // Widget is the resource controller of the C12 programs (Index, Show, Store).
 type Widget struct {
 	index, show, store rux.HandlerFunc
+	uses               map[string][]rux.HandlerFunc // per-action middleware of THIS instance
 }
+
+// Uses hands out this instance's per-action middleware
+func (w *Widget) Uses() map[string][]rux.HandlerFunc { return w.uses }
 
 func (w *Widget) Index(c *rux.Context) { w.index(c) }
 func (w *Widget) Show(c *rux.Context)  { w.show(c) }
@@ -241,9 +246,11 @@ func execProgram(prog []refmodel.Stmt, sentinel, strict bool) (pr *progRun_, pv 
 				case "resource":
 					mw := spare(mk(s.K), s.Spare)
 					mains := mkMain(3)
+					um := mk(3)
 					rp := fmt.Sprintf("/q%d%s", cn, s.Prefix)
 					cn++
-					r.Resource(rp, &Widget{index: mains[0], show: mains[1], store: mains[2]}, mw...)
+					r.Resource(rp, &Widget{index: mains[0], show: mains[1], store: mains[2],
+						uses: map[string][]rux.HandlerFunc{"Index": {um[0]}, "Show": {um[1]}, "Store": {um[2]}, "Edit": {um[0], um[1]}}}, mw...)
 					pr.rts = append(pr.rts, nil, nil, nil)
 				}
 				if top && sentinel {
@@ -441,7 +448,13 @@ func progRun(c progCase, mode string, st *fw.Stats) []fw.Viol {
 				add("order:notfound-status", fmt.Sprintf("program [%s]: default not-found handler should answer 404, got %d", ps, code))
 			}
 			for _, rt := range m.Routes {
-				if rt.Method == "GET" && !rt.Any && !strings.Contains(rt.Path, "{") {
+				other := false
+				for _, o := range m.Routes {
+					if o.Req == rt.Req && (o.Method != "GET" || o.Any) {
+						other = true // the path also has a route for another method (a resource's Store): no 405 there
+					}
+				}
+				if rt.Method == "GET" && !rt.Any && !other && !strings.Contains(rt.Path, "{") {
 					st.Evals++
 					want := chainEvents(append(append([]int{}, m.Global...), m.NotAllowed...))
 					got, code, pv := request("POST", rt.Req)
@@ -534,6 +547,7 @@ func progVariants(mode string, depth int, inGroup bool) []refmodel.Stmt {
 			v = append(v, refmodel.Stmt{Kind: "route", K: kk[0], K2: kk[1]})
 		}
 		v = append(v, refmodel.Stmt{Kind: "route", K: 1, Via: "any"}, refmodel.Stmt{Kind: "route", K: 2, K2: 1, Via: "attach"})
+		v = append(v, refmodel.Stmt{Kind: "resource", Prefix: "/", K: 0})
 		if !inGroup {
 			v = append(v, refmodel.Stmt{Kind: "notfound", K: 1}, refmodel.Stmt{Kind: "notfound", K: 2}, refmodel.Stmt{Kind: "notallowed", K: 1})
 		}
